@@ -36,6 +36,9 @@ func (list *List) LPop(count int) ([]string, bool) {
 	if count < 1 {
 		return nil, false
 	}
+	if len(list.elements) < count {
+		count = len(list.elements)
+	}
 	elems := []string{}
 	for n := 0; n < count; n++ {
 		if len(list.elements) < 1 {
@@ -57,6 +60,9 @@ func (list *List) LPush(elems []string) int {
 func (list *List) RPop(count int) ([]string, bool) {
 	if count < 1 {
 		return nil, false
+	}
+	if len(list.elements) < count {
+		count = len(list.elements)
 	}
 	elems := []string{}
 	for n := 0; n < count; n++ {
@@ -80,6 +86,12 @@ func (list *List) Range(start int, stop int) []string {
 	}
 	if stop < 0 {
 		stop = len(list.elements) + stop
+	}
+	if start < 0 {
+		start = 0
+	}
+	if len(list.elements)-1 < stop {
+		stop = len(list.elements) - 1
 	}
 	elems := []string{}
 	for n := start; n <= stop; n++ {
